@@ -40,6 +40,22 @@ func concatPure(c *Case, chunks []*CV) string {
 	for i, ch := range chunks {
 		vals[i] = ch.toGo()
 	}
+	return concatPureVals(c, chunks, vals)
+}
+
+// concatSharedVals: the case's own concatenation on chunk values built ONCE: every call, on whatever goroutine,
+// is handed the same Go values (maps, pointers) - what two consumers of one copied stream get.  The sequential
+// oracles check that a concatenation does not write to its chunks, so sharing them is safe for an implementation
+// that keeps to that; one that writes to a chunk and puts the old value back before returning shows here.
+func concatSharedVals(c *Case) func() string {
+	vals := make([]any, len(c.Chunks))
+	for i, ch := range c.Chunks {
+		vals[i] = ch.toGo()
+	}
+	return func() string { return concatPureVals(c, c.Chunks, vals) }
+}
+
+func concatPureVals(c *Case, chunks []*CV, vals []any) string {
 	var o Obs
 	switch {
 	case c.Any && c.Tagged && taggedOK(chunks):
@@ -96,6 +112,14 @@ func typedCompanion[T any](name string, items []T) *companion {
 }
 
 func initCompanions() {
+	companions = buildCompanions()
+	for _, k := range companions {
+		k.base = k.run()
+	}
+}
+
+// buildCompanions: the companion calls, none of them run yet (cold.go needs them before ANY concatenation of the process)
+func buildCompanions() []*companion {
 	i0, i1 := 0, 1
 	msgs := []*schema.Message{
 		{Role: schema.Assistant, Content: "he", Extra: map[string]any{"k": "a", "n": int64(1)},
@@ -119,7 +143,7 @@ func initCompanions() {
 			return out
 		}}
 	}
-	companions = []*companion{
+	return []*companion{
 		typedCompanion("string chunks", []string{"a", "b", "c"}),
 		typedCompanion("int64 chunks", []int64{1, 2, 3}),
 		typedCompanion("map[string]any chunks {n int64, t string, a Acc}", []map[string]any{
@@ -151,9 +175,6 @@ func initCompanions() {
 			return compose.VerifConcatStreamReader(schema.StreamReaderFromArray([][]*schema.Message{{msgs[0], nil}, {msgs[1], msgs[2]}}))
 		}),
 	}
-	for _, k := range companions {
-		k.base = k.run()
-	}
 }
 
 // concFailed: what the concurrent phase reported for a case of this process (key: the case without its Conc
@@ -166,6 +187,7 @@ var concFailed = map[string]string{}
 func concKey(c *Case) string {
 	d := *c
 	d.Conc = 0
+	d.Cold = 0
 	return js(&d)
 }
 
